@@ -2,6 +2,8 @@ register("C17",
          "Coq theorems by nested induction on a Gallina model of rooted ordered trees (Tree/RTree, Nav, UpdatePath, CachePath: literal path_from_to, "
          "distance dict order, TDVPUpdatePathFinder with its tie-breaking, the state-threading _find_caching_path) + exact differential "
          "correspondence on all rooted ordered trees up to 7 (quick) / 9 (thorough) nodes and random trees up to 40 nodes + BFS oracle; "
+         "trees with many nodes (41 .. 700 quick / 1200 thorough, every size band in every run: all navigation queries on sampled pairs / centres, "
+         "subtree / leaves / size / root path of every node, update path and cache keys against graph search; model tie up to 256 / 420 nodes); "
          "histories of real TDVP algorithm objects (several objects per process on trees sharing identifiers and traversal sequences, "
          "time steps / runs / resets on a reused object; states already in canonical form w.r.t. any node (any leaf, inner node, root; "
          "centre moved around) or taken over from an earlier object before the path finder / TDVP object is built): update path and environment cache keys held by the object against the model and "
